@@ -79,8 +79,20 @@ func NativeStats() (builds, hits int) {
 }
 
 func NativeEnv(files map[string]string, scratch string, env []string, stdin string) *NativeResult {
+	return nativeRun(files, ".", scratch, env, stdin)
+}
+
+// NativePkg builds and runs the main package in directory pkg (e.g. "./app") of the module made of files.
+func NativePkg(files map[string]string, pkg, scratch string) *NativeResult {
+	return nativeRun(files, pkg, scratch, nil, "")
+}
+
+func nativeRun(files map[string]string, pkg, scratch string, env []string, stdin string) *NativeResult {
 	h := sha256.New()
 	h.Write([]byte(goVersionTag))
+	if pkg != "." {
+		h.Write([]byte("\x03" + pkg))
+	}
 	names := make([]string, 0, len(files))
 	for k := range files {
 		names = append(names, k)
@@ -130,7 +142,7 @@ func NativeEnv(files map[string]string, scratch string, env []string, stdin stri
 	}
 	res := &NativeResult{}
 	bin := filepath.Join(dir, "ref.bin")
-	cmd := exec.Command("go", "build", "-o", bin, ".")
+	cmd := exec.Command("go", "build", "-o", bin, pkg)
 	cmd.Dir = dir
 	cmd.Env = append(os.Environ(), "GOFLAGS=-mod=mod", "GOPROXY=off", "GOSUMDB=off", "GOTOOLCHAIN=local", "GO111MODULE=on")
 	if ob, err := cmd.CombinedOutput(); err != nil {
